@@ -1076,7 +1076,7 @@ def check_v2_renderings(chk, ix, tier="quick"):
                 st.frames = []
                 outs = it.call_function(st, sel, [text], {}, None)
                 chk.instance("T4")
-                ok_ = len(outs) == 1 and outs[0][1] == "val" and getattr(getattr(outs[0][2], "func", None), "name", "") == "_parse_tag_expression_v2"
+                ok_ = bool(outs) and all(o[1] == "val" and getattr(getattr(o[2], "func", None), "name", "") == "_parse_tag_expression_v2" for o in outs)
                 if ok_:
                     chk.ok("T4", {"rendering": text, "auto_detected": "v2"}, nontrivial_key=("auto", text))
                 else:
